@@ -544,6 +544,9 @@ def units(draw: Any, feat: Optional[Features] = None) -> Unit:
     if feat.message_grids and feat.aliases and draw(st.integers(0, 5)) == 4:
         add_message_grid(draw, b.unit, feat.extensible and feat.ext_arrays, feat.signed_nonstd)
         _clamp_sizes(b.unit)
+    if feat.message_grids and feat.aliases and draw(st.integers(0, 7)) == 6:
+        add_bulk_array(draw, b.unit, feat.signed_nonstd)
+        _clamp_sizes(b.unit)
     if feat.long_names and draw(st.integers(0, 5)) == 1:
         lengthen_names(draw, b.unit)
     if feat.odd_file_names and draw(st.integers(0, 3)) == 1:
@@ -632,6 +635,41 @@ def add_message_grid(draw: Any, unit: Unit, ext_ok: bool, signed_nonstd: bool = 
     set_parents(unit)
     if not (scoping.retext(unit) and scoping.names_unique(unit)):
         raise AssertionError("message grid must stay resolvable")
+    return True
+
+
+def add_bulk_array(draw: Any, unit: Unit, signed_nonstd: bool = True) -> bool:
+    """A LONG array (30..70 elements; ordinary arrays here have 1..5) of small elements - 8-bit base types, or an alias of a
+    sub-byte array whose rows fill exactly 8 / 16 / 32 / 64 bits or just miss them - behind a lead field that leaves it
+    byte-aligned or not, with a field behind it: element-count thresholds of block copies and loops are crossed."""
+    from . import scoping
+
+    f = unit.files[draw(st.integers(0, len(unit.files) - 1))]
+    taken = {it.name for it in f.items}
+    names = [n for n in ("Brow", "Bbulk") if n not in taken]
+    if len(names) < 2:
+        return False
+    kind = draw(st.sampled_from(["row", "row", "row", "base"]))
+    if kind == "row":
+        ew = draw(st.sampled_from([1, 1, 2, 4, 4, 3]))
+        total = draw(st.sampled_from([8, 8, 16, 32, 64, 12, 24]))
+        ek = draw(st.sampled_from(["uint", "bool", "int"] if signed_nonstd else ["uint", "bool"]))
+        elem = TBase("bool") if (ek == "bool" and ew == 1) else TBase("int" if ek == "int" else "uint", ew)
+        row = Alias(names[0], TArray(elem, max(1, total // ew)))
+    else:
+        row = Alias(names[0], TBase(draw(st.sampled_from(["uint", "int", "byte"])), 8))
+        if row.type.kind == "byte":
+            row.type = TBase("byte")
+    bulk = Message(names[1], False)
+    bulk.items += [
+        Field("lead", TBase("uint", draw(st.sampled_from([8, 8, 16, 3, 5]))), 1),
+        Field("cells", TArray(TRef(row.name, row), draw(st.sampled_from([30, 31, 32, 33, 40, 64, 65, 70]))), 2),
+        Field("tail", TBase("uint", 5), 3),
+    ]
+    f.items += [row, bulk]
+    set_parents(unit)
+    if not (scoping.retext(unit) and scoping.names_unique(unit)):
+        raise AssertionError("bulk array must stay resolvable")
     return True
 
 
